@@ -218,6 +218,11 @@ impl Check for C10 {
                                 if request_receipt.total_ns() != r.rx / NS {
                                     viol.push(("C10.pdelay_resp_receipt_time".into(), String::new(), format!("requestReceiptTimestamp {:?} but request was received at {} ns", request_receipt, r.rx / NS)));
                                 }
+                                // the times are split over response and follow-up: a receiver only waits for
+                                // the follow-up if the response says so
+                                if !f.hdr.flag(flag::TWO_STEP) {
+                                    viol.push(("C10.pdelay_resp_not_two_step".into(), String::new(), "Pdelay_Resp that is completed by a Pdelay_Resp_Follow_Up lacks twoStepFlag: a peer takes it for a one-step response".into()));
+                                }
                                 pending_pfu.push((r.src, r.seq, e.tx_stamp.unwrap_or(0)));
                             }
                         }
